@@ -8,8 +8,8 @@ def run(tier, seed):
         mc_actions_by_module={"BatchOpen": ("FundingSigned", "Complete"), "DisComplete": ("RecvRevocation", "Disconnect", "Reconnect", "Complete")},
         profiles=[("async", 2, 150), ("asyncreest", 2, 250), ("deferred", 2, 80), ("asyncopen", 2, 60), ("asyncopen", 3, 50), ("async", 3, 60)],
         thorough_profiles=[("async", 2, 2000), ("asyncreest", 2, 2500), ("deferred", 2, 1000), ("deferred", 3, 400), ("asyncopen", 2, 800), ("asyncopen", 3, 500), ("async", 3, 700)],
-        families=[("blockedjump", 250), ("opendisc", 250), ("asynccross", 200), ("discomplete", 200), ("batchopen", 200), ("openshut", 150)],
-        thorough_families=[("blockedjump", 2500), ("opendisc", 2500), ("asynccross", 2000), ("discomplete", 1500), ("batchopen", 1500), ("openshut", 1500)],
+        families=[("blockedjump", 250), ("opendisc", 250), ("asynccross", 200), ("discomplete", 200), ("batchopen", 200), ("openshut", 150), ("pausetwice", 200)],
+        thorough_families=[("blockedjump", 2500), ("opendisc", 2500), ("asynccross", 2000), ("discomplete", 1500), ("batchopen", 1500), ("openshut", 1500), ("pausetwice", 2000)],
         assumptions=cc.COMMON_ASSUMPTIONS + [
             "immediate and deferred (queue + flush) ChainMonitor modes; Persist returns InProgress/Completed as the script says; completion is reported through "
             "ChainMonitor::channel_monitor_updated in any order"])
